@@ -53,6 +53,35 @@ ASSUMPTIONS = [
 
 logging.disable(logging.CRITICAL)
 
+# When a translator aborts (or a generated definition no longer type-checks) there is no model executable;
+# the model-independent oracles still run, so that a concrete failing input is reported.
+RUNS_WITHOUT_MODEL = True
+
+
+class Spin(Exception):
+    pass
+
+
+class watchdog:
+    """a reader loop that never yields (e.g. shutdown() no longer clears `running`) would hang the harness"""
+
+    def __init__(self, seconds=10):
+        self.seconds = seconds
+
+    def __enter__(self):
+        import signal
+
+        def onalarm(sig, frm):
+            raise Spin()
+        self.old = signal.signal(signal.SIGALRM, onalarm)
+        signal.setitimer(signal.ITIMER_REAL, self.seconds)
+
+    def __exit__(self, *a):
+        import signal
+        signal.setitimer(signal.ITIMER_REAL, 0)
+        signal.signal(signal.SIGALRM, self.old)
+        return False
+
 
 # =============================================================================================
 # (A) streams
@@ -160,16 +189,23 @@ def chunkings(rng, s, exhaustive):
 
 def check_stream(ctx, M, loop, events, pkts, origin, fail_on=None):
     """events: [(0, chunk) | (1,) | (2,) | (3,)]; pkts: the packet list the fed bytes were built from (or None)"""
+    case = {'events': [list(e) for e in events], 'origin': origin}
     sr = StreamRun(loop, fail_on)
-    outs = [sr.event(ev) for ev in events]
+    try:
+        with watchdog():
+            outs = [sr.event(ev) for ev in events]
+    except Spin:
+        ctx.violation('StreamFace.run', 'reader-loop-spins', 'run() does not return control to the event loop', case)
+        raise
     st = sr.state()
     sr.close()
-    case = {'events': [list(e) for e in events], 'origin': origin}
     flat = [p for o in outs for p in o]
     fed = b''.join(e[1] for e in events if e[0] == 0)
     # ---- correspondence
-    m = M([1, [list(e) for e in events]])
-    if is_err(m):
+    m = M([1, [list(e) for e in events]]) if M else None
+    if m is None:
+        pass
+    elif is_err(m):
         ctx.disagree('StreamFace.run', 'model bad request', case, m, None)
     else:
         mface, mouts = m
@@ -190,9 +226,11 @@ def check_stream(ctx, M, loop, events, pkts, origin, fail_on=None):
         ended = bool(kinds) and kinds[-1] == 1
         if pkts is not None:
             want = pkts
-        else:
+        elif M:
             s = M([2, fed])
             want = pkts_of_sexp(s[0])
+        else:
+            want = flat
         if flat != want:
             cls = 'partial-or-wrong-packet' if any(p not in want for p in flat) else \
                 ('packet-lost' if len(flat) < len(want) else 'packet-duplicated-or-reordered')
@@ -218,7 +256,7 @@ def check_stream(ctx, M, loop, events, pkts, origin, fail_on=None):
 
 
 def part_stream(ctx):
-    rng, M = ctx.rng, ctx.call
+    rng, M = ctx.rng, (ctx.call if ctx.model else None)
     loop = vtloop.new_loop()
     from ndn.encoding import make_interest, make_data, InterestParam, MetaInfo
     real = [bytes(make_interest('/a/b', InterestParam(nonce=7, lifetime=4000))), bytes(make_data('/a', MetaInfo(), b'xy')),
@@ -324,7 +362,7 @@ def part_stream(ctx):
 # UDP
 # =============================================================================================
 def part_udp(ctx):
-    rng, M = ctx.rng, ctx.call
+    rng, M = ctx.rng, (ctx.call if ctx.model else None)
     from ndn.transport.udp_face import UdpFace
     loop = vtloop.new_loop()
     srv = socket.socket(socket.AF_INET, socket.SOCK_DGRAM)
@@ -376,12 +414,12 @@ def part_udp(ctx):
             loop.settle()
         got = rec[n0:]
         case = {'datagram': data, 'via_socket': via_socket}
-        m = M([3, data])
-        if is_err(m):
-            exp = ('raise', m[1])
-        else:
-            exp = ('ok', pkts_of_sexp(m[1]))
         imp = ('raise', {'IndexError': 2, 'error': 4}.get(raised, raised)) if raised else ('ok', got)
+        if M:
+            m = M([3, data])
+            exp = ('raise', m[1]) if is_err(m) else ('ok', pkts_of_sexp(m[1]))
+        else:
+            exp = imp
         if exp != imp:
             ctx.disagree('UdpFace.datagram_received', 'model and implementation differ', case, exp, imp)
         if raised:
@@ -827,7 +865,7 @@ KNOWN_WITNESSES = [
 
 
 def part_receive(ctx):
-    rng, M = ctx.rng, ctx.call
+    rng, M = ctx.rng, (ctx.call if ctx.model else None)
     from ndn.encoding import ndn_format_0_3 as F, ndnlp_v2 as LP
     from ndn import utils
     loop = vtloop.new_loop()
@@ -845,13 +883,18 @@ def part_receive(ctx):
 
         def one(origin, typ, w, with_oracle):
             for f in fronts:
-                a = M([4, f.ver, None if f.nd is None else [f.nd], typ, w])
                 case = {'front': f.ver, 'typ': typ, 'wire': w, 'origin': origin}
-                if is_err(a) and a[1] == 98:
-                    ctx.disagree(f'appv{f.ver}._receive', 'model bad request', case, a, None)
-                    continue
-                ma = norm_action(a, f.ver)
                 ia = f.classify(loop, typ, w)
+                if M:
+                    a = M([4, f.ver, None if f.nd is None else [f.nd], typ, w])
+                    if is_err(a) and a[1] == 98:
+                        ctx.disagree(f'appv{f.ver}._receive', 'model bad request', case, a, None)
+                        continue
+                    ma = norm_action(a, f.ver)
+                else:
+                    # no model: the instrumented implementation says whom the packet addresses
+                    a = [ia[0] if isinstance(ia[0], int) else 0] + ia[1:]
+                    ma = ia
                 if ma[0] == 1 and ia[0] == 1:
                     if ma != ia:
                         ctx.stat('raise-class-differs')     # only raised-or-not is compared (DESIGN 2.4)
@@ -893,7 +936,11 @@ def part_receive(ctx):
 
 
 def run(ctx):
-    info = ctx.call([6])
+    if ctx.model is None:
+        ctx.notes.append('no model executable: only the model-independent oracles were run')
+        info = [None] * 8
+    else:
+        info = ctx.call([6])
     ctx.extra['source_reflection'] = {'run_catches_incomplete_read': info[0], 'run_catches_conn_reset': info[1],
                                       'run_spawns_task': info[2], 'udp_guarded': info[3], 'v1_frag_guard': info[4],
                                       'v2_frag_guard': info[5], 'v1_except_lp': info[6], 'v2_except_lp': info[7]}
